@@ -17,6 +17,8 @@ SchemaP == SchemaF(<<
     <<"pw", With(SecureF, [method |-> "xor"])>>,
     <<"hash", With(ChallengeF, [alg |-> "md5"])>>,
     <<"blob", BytesF>>,
+    \* an unbounded float: the infinities are values every format writes and reads back
+    <<"ratio", FloatF>>,
     <<"bl", ListF(With(BytesF, [encoding |-> "hex"]))>>,
     <<"sl", ListF(SecureF)>>,
     \* secrets two list levels down (rotation history per credential): every leaf is a secret all the same
@@ -34,8 +36,8 @@ SchemaP == SchemaF(<<
     <<"virt", VirtualF>>,
     <<"svirt", VirtualF @@ [sensitive |-> TRUE]>> >>)
 
-MCKeyNames == {"vault2", "nl", "sitems", "dflt", "dl", "name", "pw", "hash", "blob", "bl", "sl", "dd", "api", "sub", "tok", "port", "vault", "sec", "inner", "n", "items", "u", "virt", "svirt"}
-MCKeyChars == [k \in MCKeyNames |-> CASE k = "vault2" -> <<"v", "a", "u", "l", "t", "2">> [] k = "nl" -> <<"n", "l">> [] k = "sitems" -> <<"s", "i", "t", "e", "m", "s">> [] k = "dflt" -> <<"d", "f", "l", "t">> [] k = "dl" -> <<"d", "l">> [] k = "name" -> <<"n", "a", "m", "e">> [] k = "pw" -> <<"p", "w">> [] k = "hash" -> <<"h", "a", "s", "h">> [] k = "blob" -> <<"b", "l", "o", "b">> [] k = "bl" -> <<"b", "l">> [] k = "sl" -> <<"s", "l">> [] k = "dd" -> <<"d", "d">> [] k = "api" -> <<"a", "p", "i">> [] k = "sub" -> <<"s", "u", "b">> [] k = "tok" -> <<"t", "o", "k">> [] k = "port" -> <<"p", "o", "r", "t">> [] k = "vault" -> <<"v", "a", "u", "l", "t">> [] k = "sec" -> <<"s", "e", "c">> [] k = "inner" -> <<"i", "n", "n", "e", "r">> [] k = "n" -> <<"n">> [] k = "items" -> <<"i", "t", "e", "m", "s">> [] k = "u" -> <<"u">> [] k = "virt" -> <<"v", "i", "r", "t">> [] k = "svirt" -> <<"s", "v", "i", "r", "t">>]
+MCKeyNames == {"ratio", "vault2", "nl", "sitems", "dflt", "dl", "name", "pw", "hash", "blob", "bl", "sl", "dd", "api", "sub", "tok", "port", "vault", "sec", "inner", "n", "items", "u", "virt", "svirt"}
+MCKeyChars == [k \in MCKeyNames |-> CASE k = "ratio" -> <<"r", "a", "t", "i", "o">> [] k = "vault2" -> <<"v", "a", "u", "l", "t", "2">> [] k = "nl" -> <<"n", "l">> [] k = "sitems" -> <<"s", "i", "t", "e", "m", "s">> [] k = "dflt" -> <<"d", "f", "l", "t">> [] k = "dl" -> <<"d", "l">> [] k = "name" -> <<"n", "a", "m", "e">> [] k = "pw" -> <<"p", "w">> [] k = "hash" -> <<"h", "a", "s", "h">> [] k = "blob" -> <<"b", "l", "o", "b">> [] k = "bl" -> <<"b", "l">> [] k = "sl" -> <<"s", "l">> [] k = "dd" -> <<"d", "d">> [] k = "api" -> <<"a", "p", "i">> [] k = "sub" -> <<"s", "u", "b">> [] k = "tok" -> <<"t", "o", "k">> [] k = "port" -> <<"p", "o", "r", "t">> [] k = "vault" -> <<"v", "a", "u", "l", "t">> [] k = "sec" -> <<"s", "e", "c">> [] k = "inner" -> <<"i", "n", "n", "e", "r">> [] k = "n" -> <<"n">> [] k = "items" -> <<"i", "t", "e", "m", "s">> [] k = "u" -> <<"u">> [] k = "virt" -> <<"v", "i", "r", "t">> [] k = "svirt" -> <<"s", "v", "i", "r", "t">>]
 MCEnviron == [x \in {<<"N", "V">>} |-> <<>>]
 
 \* a ready-made instance of the vault type (it names its own key file) with secrets already set
@@ -48,7 +50,7 @@ LongSecret == StrV(<<"0", "1", "2", "3", "4", "5", "6", "7", "8", "9", "a", "b",
 MCSetCands ==
     [pk \in {<< <<>>, "nl">>, << <<>>, "sitems">>, << <<>>, "dflt">>, << <<>>, "dl">>, << <<>>, "name">>, << <<>>, "pw">>, << <<>>, "hash">>, << <<>>, "blob">>, << <<>>, "bl">>, << <<>>, "sl">>,
              << <<>>, "dd">>, << <<>>, "api">>, << <<"sub">>, "tok">>, << <<>>, "vault">>, << <<"vault">>, "sec">>,
-             << <<"vault", "inner">>, "tok">>, << <<>>, "items">>, << <<>>, "vault2">>, << <<"vault2">>, "sec">>} |->
+             << <<"vault", "inner">>, "tok">>, << <<>>, "items">>, << <<>>, "vault2">>, << <<"vault2">>, "sec">>, << <<>>, "ratio">>} |->
         CASE pk[2] = "sitems" -> {ListV(<<D2(<<"u">>, StrV(<<"s", "a", "m">>), <<"p", "w">>, StrV(<<"s", "i", "t", "e", "m", "p", "w", "#", "7">>))>>)}
           [] pk[2] = "dflt"  -> {D1(<<"a">>, IntV(5)), DictV(<<>>)}
           [] pk[2] = "dl"    -> {ListV(<<>>), ListV(<<IntV(2)>>)}
@@ -70,6 +72,7 @@ MCSetCands ==
           [] pk[2] = "vault" -> {D1(<<"s", "e", "c">>, StrV(<<"v", "a", "u", "l", "t", "s", "e", "c", "#", "2">>)), [t |-> "cfgobj", c |-> VaultObj],
                                  \* a rejected map: the valid entries come first
                                  D2(<<"s", "e", "c">>, StrV(<<"r", "e", "j", "e", "c", "t", "e", "d", "#", "1">>), <<"i", "n", "n", "e", "r">>, D1(<<"n">>, StrV(<<"x">>)))}
+          [] pk[2] = "ratio" -> {FloatH(3), FSpec("inf"), FSpec("ninf")}
           [] pk[2] = "vault2" -> {D1(<<"s", "e", "c">>, StrV(<<"v", "a", "u", "l", "t", "2", "s", "e", "c", "#", "1">>))}
           [] pk[2] = "sec"   -> {StrV(<<"v", "a", "u", "l", "t", "s", "e", "c", "#", "3">>)}
           [] pk[1] = <<"vault", "inner">> -> {StrV(<<"i", "n", "n", "e", "r", "t", "o", "k", "#", "4">>)}
